@@ -24,6 +24,7 @@ import (
 	"runtime"
 	"runtime/debug"
 	"runtime/metrics"
+	"sort"
 	"strconv"
 	"strings"
 	"sync"
@@ -72,6 +73,41 @@ func init() {
 		j[0].S = c08ScanFor(c08Targets[j[0].Target].Family, data, fi).S
 		r := c09RunJobs(j, 1)[0]
 		fmt.Printf("declaredS=%d outcome=%s ms=%.1f alloc=%d peak=%d site=%s kind=%s line=%s text=%s\n", j[0].S, r.Outcome, float64(r.Ns)/1e6, r.Alloc, r.Peak, r.Site, r.Kind, r.Line, r.Text)
+		os.Exit(0)
+	}
+	if len(os.Args) >= 3 && os.Args[1] == "c08-corpus" { // analysis aid: print a corpus stream of the repo's encoders
+		c := hx.NewCtx("C08", 1, "quick", os.TempDir())
+		for _, sd := range c08Corpus(c) {
+			if sd.Name == os.Args[2] {
+				fmt.Println(hx.Hex(sd.Data))
+			}
+		}
+		os.Exit(0)
+	}
+	if len(os.Args) >= 4 && os.Args[1] == "c08-prof" { // analysis aid: top allocation sites of one decode
+		data, _ := hex.DecodeString(os.Args[3])
+		runtime.MemProfileRate = 1
+		t := c08TargetIdx(os.Args[2])
+		_, _ = c08Targets[t].Run(data, [5]uint16{})
+		runtime.GC()
+		recs := make([]runtime.MemProfileRecord, 200000)
+		n, _ := runtime.MemProfile(recs, true)
+		recs = recs[:n]
+		sort.Slice(recs, func(i, j int) bool { return recs[i].AllocBytes > recs[j].AllocBytes })
+		for i := 0; i < 6 && i < len(recs); i++ {
+			fr := runtime.CallersFrames(recs[i].Stack())
+			var names []string
+			for {
+				f, more := fr.Next()
+				if !strings.HasPrefix(f.Function, "runtime.") {
+					names = append(names, fmt.Sprintf("%s:%d", strings.TrimPrefix(f.Function, "github.com/cocosip/go-dicom-codecs/"), f.Line))
+				}
+				if !more || len(names) >= 4 {
+					break
+				}
+			}
+			fmt.Printf("%12d bytes %8d objs  %s\n", recs[i].AllocBytes, recs[i].AllocObjects, strings.Join(names, " < "))
+		}
 		os.Exit(0)
 	}
 	register("C09", c09Main)
@@ -506,17 +542,25 @@ func c09Violation(j *c08Job, r *c08Res) (class, what string) {
 	case "j2k":
 		if l := c09J2KLayers(j.Data); l >= 256 {
 			timeClass = "c09-time-j2k-declared-layers" // t2.PacketDecoder.decodeLRCP/RLCP/RPCL/PCRL/CPRL iterate all declared layers
+		} else if c09J2KGridOffset(j.Data) >= 1024 {
+			// t2.PacketDecoder.decodePacket → newCodeBlockStates / NewTagTree sized by precinctCBDimensions, which
+			// buildPrecinctOrder computes from the reference-grid origin instead of the tile-component origin
+			timeClass = "c09-j2k-grid-offset"
 		}
 	case "jpeg":
 		if n := c09CountSOF(j.Data); n >= 2 {
 			timeClass = "c09-time-jpeg-repeated-sof" // lossless14sv1.parseSOF3 / baseline.parseSOF allocate per SOF segment
 		}
 	}
+	memClass, oomClass := "c09-mem-"+tname, "c09-oom-"+tname
+	if timeClass == "c09-j2k-grid-offset" {
+		memClass, oomClass = timeClass, timeClass
+	}
 	switch r.Outcome {
 	case "timeout":
 		return timeClass, fmt.Sprintf("decode did not return within %d s", c09WatchdogSec)
 	case "crash-oom":
-		return "c09-oom-" + tname, "fatal out-of-memory abort of the decoding process (RLIMIT_AS kill switch): " + r.Text
+		return oomClass, "fatal out-of-memory abort of the decoding process (RLIMIT_AS kill switch): " + r.Text
 	case "crash":
 		return "c09-crash-" + tname, "decoding process died: " + r.Text
 	}
@@ -524,7 +568,7 @@ func c09Violation(j *c08Job, r *c08Res) (class, what string) {
 		return timeClass, fmt.Sprintf("decode took %.1f s", float64(r.Ns)/1e9)
 	}
 	if r.Peak > c09Budget(j.S) {
-		return "c09-mem-" + tname, fmt.Sprintf("sampled peak heap %d bytes > budget %d (S=%d)", r.Peak, c09Budget(j.S), j.S)
+		return memClass, fmt.Sprintf("sampled peak heap %d bytes > budget %d (S=%d)", r.Peak, c09Budget(j.S), j.S)
 	}
 	return "", ""
 }
@@ -537,6 +581,14 @@ func c09J2KLayers(b []byte) int {
 		}
 	}
 	return -1
+}
+
+// c09J2KGridOffset: max(XOsiz, YOsiz) of the SIZ segment (independent scan), 0 if none
+func c09J2KGridOffset(b []byte) int64 {
+	if len(b) < 24 || b[0] != 0xFF || b[1] != 0x4F || b[2] != 0xFF || b[3] != 0x51 {
+		return 0
+	}
+	return max(c08Be32(b, 16), c08Be32(b, 20))
 }
 
 // c09CountSOF: number of frame-header segments in front of the first scan
